@@ -25,6 +25,8 @@ impl<'ast> Visit<'ast> for Arms {
                 match body {
                     Expr::Lit(syn::ExprLit { lit: syn::Lit::Str(s), .. }) => { self.out.insert((segs[0].clone(), segs[1].clone()), Spell::Lit(s.value())); }
                     Expr::MethodCall(m) if m.args.is_empty() && is_path(&m.receiver, "self") => { self.out.insert((segs[0].clone(), segs[1].clone()), Spell::Hook(m.method.to_string())); }
+                    // `Enum::Variant => write!(sql, "LITERAL").unwrap()`
+                    Expr::MethodCall(m) if m.method == "unwrap" && m.args.is_empty() => { if let Some(t) = written_literal(&m.receiver) { self.out.insert((segs[0].clone(), segs[1].clone()), Spell::Lit(t)); } }
                     _ => {}
                 }
             }
@@ -39,6 +41,16 @@ impl<'ast> Visit<'ast> for Arms {
             for a in args.iter() { let mut inner = Arms { out: BTreeMap::new() }; inner.visit_expr(a); self.out.extend(inner.out); }
         }
     }
+}
+
+/// `write!(<writer>, "LITERAL")` with a literal free of format directives
+fn written_literal(e: &Expr) -> Option<String> {
+    use syn::parse::Parser;
+    let Expr::Macro(m) = e else { return None };
+    if !m.mac.path.is_ident("write") { return None; }
+    let args = syn::punctuated::Punctuated::<Expr, syn::Token![,]>::parse_terminated.parse2(m.mac.tokens.clone()).ok()?;
+    if args.len() != 2 { return None; }
+    match &args[1] { Expr::Lit(syn::ExprLit { lit: syn::Lit::Str(s), .. }) if !s.value().contains('{') && !s.value().contains('}') => Some(s.value()), _ => None }
 }
 
 fn arms_of_block(b: &syn::Block) -> BTreeMap<(String, String), Spell> {
@@ -61,6 +73,11 @@ const BIN_PG: [(&str, u32); 20] = [("ILike", 30), ("NotILike", 31), ("Matches", 
     ("StrictWordSimilarity", 39), ("SimilarityDistance", 40), ("WordSimilarityDistance", 41), ("StrictWordSimilarityDistance", 42), ("GetJsonField", 43), ("CastJsonField", 44), ("Regex", 45),
     ("RegexCaseInsensitive", 46), ("EuclideanDistance", 47), ("NegativeInnerProduct", 48), ("CosineDistance", 49)];
 const BIN_SQLITE: [(&str, u32); 4] = [("Glob", 60), ("Match", 61), ("GetJsonField", 62), ("CastJsonField", 63)];
+const JOIN: [(&str, u32); 6] = [("Join", 0), ("CrossJoin", 1), ("InnerJoin", 2), ("LeftJoin", 3), ("RightJoin", 4), ("FullOuterJoin", 5)];
+const LOCK: [(&str, u32); 4] = [("Update", 0), ("NoKeyUpdate", 1), ("Share", 2), ("KeyShare", 3)];
+const LOCK_BEHAVIOR: [(&str, u32); 2] = [("Nowait", 0), ("SkipLocked", 1)];
+const SUBQ: [(&str, u32); 4] = [("Exists", 0), ("Any", 1), ("Some", 2), ("All", 3)];
+const KEYWORD: [(&str, u32); 4] = [("Null", 0), ("CurrentDate", 1), ("CurrentTime", 2), ("CurrentTimestamp", 3)];
 const FN_COMMON: [(&str, u32); 19] = [("Max", 0), ("Min", 1), ("Sum", 2), ("Avg", 3), ("Abs", 4), ("Coalesce", 5), ("Count", 6), ("IfNull", 7), ("Greatest", 8), ("Least", 9), ("CharLength", 10), ("Cast", 11),
     ("Lower", 12), ("Upper", 13), ("BitAnd", 14), ("BitOr", 15), ("Random", 16), ("Round", 17), ("Md5", 18)];
 const FN_PG: [(&str, u32); 16] = [("ToTsquery", 0), ("ToTsvector", 1), ("PhrasetoTsquery", 2), ("PlaintoTsquery", 3), ("WebsearchToTsquery", 4), ("TsRank", 5), ("TsRankCd", 6), ("StartsWith", 7),
@@ -115,6 +132,26 @@ pub fn generate(repo: &Path) -> R<Vec<(String, String)>> {
             if !norm_tokens(&o.block).contains("self . prepare_function_name_common (function , sql)") { return Err("Postgres prepare_function_name does not fall back to the common table".into()); }
             out.push_str(&table("fnPg", "Postgres `prepare_function_name`", "PgFunction", &FN_PG, &arms_of_block(&o.block), &no_hook)?);
         } else if over.is_some() { return Err(format!("{ty} overrides prepare_function_name (the model has no such table)")); }
+    }
+    // ---- keyword tables of the shared renderer: join types, lock strengths and behaviours, sub-query operators, keywords
+    let body = |name: &str| -> R<&syn::Block> { trait_fn(&qb, "QueryBuilder", name).and_then(|f| f.default.as_ref()).ok_or(format!("QueryBuilder::{name} not found")) };
+    let jt = body("prepare_join_type")?;
+    if !norm_tokens(jt).contains("self . prepare_join_type_common (join_type , sql)") { return Err("QueryBuilder::prepare_join_type no longer delegates to prepare_join_type_common".into()); }
+    out.push_str(&table("joinKw", "`prepare_join_type_common`", "JoinType", &JOIN, &arms_of_block(body("prepare_join_type_common")?), &no_hook)?);
+    let lock = body("prepare_select_lock")?;
+    if !norm_tokens(lock).contains("\"FOR {}\"") || !norm_tokens(lock).contains("\" OF \"") { return Err("QueryBuilder::prepare_select_lock: the `FOR {}` / ` OF ` frame is not the modelled one".into()); }
+    let larms = arms_of_block(lock);
+    out.push_str(&table("lockKw", "`prepare_select_lock`: the lock strength written after `FOR `", "LockType", &LOCK, &larms, &no_hook)?);
+    out.push_str(&table("lockBehaviorKw", "`prepare_select_lock`: the behaviour suffix", "LockBehavior", &LOCK_BEHAVIOR, &larms, &no_hook)?);
+    out.push_str(&table("subOpKw", "`prepare_sub_query_oper`", "SubQueryOper", &SUBQ, &arms_of_block(body("prepare_sub_query_oper")?), &no_hook)?);
+    out.push_str(&table("keywordKw", "`prepare_keyword`", "Keyword", &KEYWORD, &arms_of_block(body("prepare_keyword")?), &no_hook)?);
+    for (b, ty, f) in &files {
+        // the overrides the model knows: MySQL refuses FULL OUTER JOIN, SQLite writes no lock clause and refuses ANY / SOME / ALL
+        let has = |name: &str| impl_fn(f, Some("QueryBuilder"), ty, name).is_some();
+        let want: &[&str] = match *b { "Mysql" => &["prepare_join_type"], "Sqlite" => &["prepare_select_lock", "prepare_sub_query_oper"], _ => &[] };
+        for name in ["prepare_join_type", "prepare_join_type_common", "prepare_select_lock", "prepare_sub_query_oper", "prepare_keyword"] {
+            if has(name) != want.contains(&name) { return Err(format!("{ty}: override of {name} {} (the model expects the opposite)", if has(name) { "present" } else { "missing" })); }
+        }
     }
     out.push_str("end SeaQ.Gen.Spell\n");
     Ok(vec![("Spell.lean".into(), out)])
